@@ -275,7 +275,19 @@ func (r *raftRun) genEntry(g *Gen, now int64) []string {
 			cmd = g.SetCommand()
 		}
 		if len(cmd) > 0 && r.isSync(cmd[0]) {
-			return cmd
+			// arguments that are not ASCII travel through encoding/json (outside the exact model: the entry is
+			// judged by the spec only); keep a few of them
+			ascii := true
+			for _, a := range cmd {
+				for i := 0; i < len(a); i++ {
+					if a[i] >= 0x80 {
+						ascii = false
+					}
+				}
+			}
+			if ascii || g.Chance(0.15) {
+				return cmd
+			}
 		}
 	}
 }
